@@ -71,6 +71,19 @@ func buildAttr(n attrNode) slog.Attr {
 	return slog.NewAttr(n.key(), vs.Mk())
 }
 
+func buildAttrMut(n attrNode, pend *[]c07pending) slog.Attr {
+	if n.IsG {
+		members := make([]slog.Attr, 0, len(n.G))
+		for _, m := range n.G {
+			members = append(members, buildAttrMut(m, pend))
+		}
+		g := slog.NewGroupedAttr(n.key(), slog.NewAttr("zz-old", 1), slog.NewAttr("aa-old", "x"))
+		*pend = append(*pend, c07pending{g, members})
+		return g
+	}
+	return buildAttr(n)
+}
+
 type recCase struct {
 	Layer  string     `json:"layer"`
 	Format string     `json:"format"` // json | logfmt | color
@@ -161,8 +174,20 @@ func emitRecord(rc recCase) (payloads []string, pan string) {
 		slog.VerifSetWidths(low, mmw)
 	}()
 	args := make([]any, 0, len(rc.Attrs))
+	var pend []c07pending
 	for _, n := range rc.Attrs {
-		args = append(args, buildAttr(n))
+		if rc.Prior {
+			// groups are built with other members, printed once, and given their final members afterwards
+			args = append(args, buildAttrMut(n, &pend))
+		} else {
+			args = append(args, buildAttr(n))
+		}
+	}
+	if rc.Prior && len(pend) > 0 {
+		pl := slog.New("prior0").SetWriter(io.Discard).SetErrorWriter(io.Discard).SetLevel(slog.AlwaysLevel)
+		c16format(pl, rc.Format)
+		catch(func() { pl.LogAttrs(context.Background(), slog.WarnLevel, "groups before they were changed", args...) })
+		c07mutate(pend)
 	}
 	if rc.Prior {
 		for i, f := range []string{"json", "logfmt", "color", rc.Format} {
